@@ -133,7 +133,7 @@ class Ctx:
 
 
 def hyp_run(ctx: Ctx, strategy: Any, body: Callable[[Any], None], max_examples: int, tag: str = "",
-            stateful_machine: Any = None, step_count: int = 30) -> None:
+            stateful_machine: Any = None, step_count: int = 30, shrink_cap: Optional[int] = None) -> None:
     """Run `body` over `strategy` under Hypothesis with the shard's seed.
 
     `body` raises Violation for a property failure.  The minimal (shrunk) failing case is
@@ -161,6 +161,8 @@ def hyp_run(ctx: Ctx, strategy: Any, body: Callable[[Any], None], max_examples: 
     # the smallest failing case seen so far (the shrinker only ever tries smaller candidates)
     # is reported instead.
     cap = int(os.environ.get("VERIF_SHRINK_CAP", "400" if ctx.tier == "quick" else "2500"))
+    if shrink_cap is not None:
+        cap = min(cap, shrink_cap)
     state = {"last": None, "after": 0}
     try:
         if stateful_machine is not None:
